@@ -191,6 +191,7 @@ Proof.
   assert (C2 : ts ol <=? ts bl = true) by (apply Z.leb_le; lia). rewrite C1, C2. cbn [andb].
   replace (ts bl - ts ol) with 0 by lia. cbn [Z.quot]. rewrite Z.sub_0_r, Nat2Z.id.
   assert (Hm : (length batch =? 0)%nat = false) by (apply Nat.eqb_neq; rewrite Ebt; discriminate). rewrite Hm.
+  assert (Hm2 : (length keep + length batch <? length batch)%nat = false) by (apply Nat.ltb_ge; lia). rewrite Hm2. cbn [orb].
   replace (length keep + length batch - length batch)%nat with (length keep) by lia.
   rewrite firstn_app, firstn_all, Nat.sub_diag, firstn_O, app_nil_r. rewrite firstn_skipn. reflexivity.
 Qed.
